@@ -87,11 +87,38 @@ ASSUMPTIONS = [
 
 
 def run(tier):
+    from .. import explore, tlc_replay
+    from ..common import HarnessError, Report
+
     spec = C10Spec(tier)
+    report = Report(PROP, "model_checking", tier)
     if tier == "quick":
-        return e1check.run_e1(spec, tier, depth=8, state_budget=400000, time_budget=150, rule=RULE, assumptions=ASSUMPTIONS)
-    return e1check.run_e1(spec, tier, depth=12, state_budget=3000000, time_budget=1800, rule=RULE, assumptions=ASSUMPTIONS)
+        explore.run(spec, report, tier, 8, 400000, 150)
+    else:
+        explore.run(spec, report, tier, 12, 3000000, 1800)
+    for viol in list(report.violations.values()):
+        if viol.replay and viol.replay.get("kind") == "history" and not explore.confirm(spec, viol):
+            raise HarnessError(f"violation {viol.signature} did not reproduce from its replay data")
+    # TLA+ cross-check: every edge of TLC's complete state graph is replayed on the real gateway
+    tlc = tlc_replay.replay_all(report)
+    cov = report.coverage
+    cov["rule"] = RULE + "; plus the TLA+ model spec/OtaSession.tla: TLC computes its complete state graph and every edge is replayed on the implementation (reply kind and abstracted session state compared with the edge's target)"
+    cov["tlc"] = tlc
+    cov["traces_validated_against_impl"] = cov["transitions"] + tlc["edges_replayed_on_impl"]
+    cov["evaluations"] = cov["transitions"] + tlc["edges_replayed_on_impl"]
+    cov["distinct_nontrivial"] = cov["states"] + tlc["tlc_distinct_states"]
+    report.assumptions = list(ASSUMPTIONS) + ["TLC 1.8.0 run with -deadlock -dump dot,actionlabels; the dump is parsed and must contain exactly the number of distinct states TLC reports"]
+    return report.finish()
 
 
 def replay(data):
+    rep = data["replay"]
+    if rep.get("kind") == "tlc":
+        from .. import tlc_replay
+
+        steps = tlc_replay.replay_path([tuple(x) for x in rep["path"]])
+        for s in steps:
+            print(s)
+        print("TLC edge replay: compare with spec/OtaSession.tla; re-run './check C10' for the verdict")
+        return run("quick")
     return e1check.replay_history(C10Spec("thorough"), data)
